@@ -25,6 +25,7 @@ import JPV.Lemmas.ValWf
 import JPV.Props.C07Sort
 import JPV.Spec
 import JPV.Canon
+import JPV.Props.C01
 namespace JPV
 namespace C07Doc
 open Impl SortKVL Canon
@@ -269,6 +270,24 @@ theorem C07_document_order_independent (env : Env) (p : Path) (d d' : Val)
     Spec.run env p (canon d) = Spec.run env p (canon d') := by
   rw [C07_doc_canon_eq d d' h hn]
 
+/-- **C07_listing_refines**: composed with the central refinement theorem — for EVERY listing `d` of a
+    document whose maps have pairwise distinct keys (no `Val.wf` hypothesis any more), the Go-shaped evaluator
+    on the parsed tree, run on the canonical form of the listing, returns exactly what the specification
+    denotes for that canonical form (or fails exactly when the specification has no result). -/
+theorem C07_listing_refines (env : Env) (cfg : Cfg) (p : Path) (ch : List N) (d : Val)
+    (hb : Build.build env cfg p = .ok ch) (hn : nodupKeys d) :
+    (∃ vs rs st, Spec.run env p (canon d) = some vs ∧ Impl.run env ch (canon d) = (.ok rs, st) ∧
+        rs.map Res.val = vs ∧ vs ≠ []) ∨
+    (∃ e st, Spec.run env p (canon d) = none ∧ Impl.run env ch (canon d) = (.err e, st)) :=
+  C01.C01_refines env cfg p ch (canon d) hb (canon_wf d hn)
+
+/-- **C07_impl_order_independent**: two listings of the same nested maps give the evaluator the same
+    input, hence the same outcome — results, error, call log and final state alike. -/
+theorem C07_impl_order_independent (env : Env) (ch : List N) (d d' : Val)
+    (h : Equiv d d') (hn : nodupKeys d) :
+    Impl.run env ch (canon d) = Impl.run env ch (canon d') := by
+  rw [C07_doc_canon_eq d d' h hn]
+
 /-- hypotheses satisfiable, on a document with objects at two depths listed in different orders -/
 example : Equiv
     (.obj [("b", .arr [.obj [("y", .num 1), ("x", .num 2)]]), ("a", .str "s")])
@@ -292,4 +311,4 @@ example : canon (.obj [("a", .num 1), ("a", .num 2)]) ≠ canon (.obj [("a", .nu
 
 end C07Doc
 end JPV
--- OBLIGATIONS: JPV.C07Doc.C07_doc_canon_eq JPV.C07Doc.C07_canon_wf JPV.C07Doc.C07_canon_equiv JPV.C07Doc.C07_canon_of_wf JPV.C07Doc.C07_canon_idem JPV.C07Doc.C07_shuffle_is_equiv JPV.C07Doc.C07_document_order_independent
+-- OBLIGATIONS: JPV.C07Doc.C07_doc_canon_eq JPV.C07Doc.C07_canon_wf JPV.C07Doc.C07_canon_equiv JPV.C07Doc.C07_canon_of_wf JPV.C07Doc.C07_canon_idem JPV.C07Doc.C07_shuffle_is_equiv JPV.C07Doc.C07_document_order_independent JPV.C07Doc.C07_listing_refines JPV.C07Doc.C07_impl_order_independent
